@@ -58,6 +58,8 @@ class SpyRunner(Runner):
         self.inflight = []         # tasks submitted, not yielded (submit order)
         self.probe_tasks = None    # set by the engine: tasks to probe at close()
         self.ok_names = set()
+        self.empty_waits = 0
+        self.interrupted = False
         trace.runner = self
 
     def submit_task(self, task, task_name, use_cache):
@@ -80,6 +82,13 @@ class SpyRunner(Runner):
     def wait(self, *, timeout_seconds):
         self.hooks.before_wait(self)
         self.trace.rec('wait', inflight=[t.name for t in self.inflight])
+        if not self.inflight and not self.interrupted:
+            self.empty_waits += 1
+            if self.empty_waits >= 3:
+                raise HarnessAbort('spin: coordinator keeps calling wait() with nothing in flight '
+                                   f'(submitted {len(self.submitted)}, yielded {len(self.yielded)})')
+        else:
+            self.empty_waits = 0
         n = 0
         for task, res in self.inner.wait(timeout_seconds=timeout_seconds):
             n += 1
@@ -100,11 +109,13 @@ class SpyRunner(Runner):
 
     def cancel(self):
         self.trace.rec('cancel')
+        self.interrupted = True
         self.hooks.on_cancel(self)
         return self.inner.cancel()
 
     def stop(self):
         self.trace.rec('stop')
+        self.interrupted = True
         self.hooks.on_stop(self)
         return self.inner.stop()
 
